@@ -50,7 +50,7 @@ def hook_blocks(ctx, r):
             meta.append(("boundary:" + name, True))
     for i in range(ctx.n(300, 5000)):
         coin = K.COINS[i % 8]
-        b = GC.gen_chain(r, coin, 2, max_txs=r.choice([0, 1, 3, 8]), max_io=r.choice([1, 3, 6]))[1]
+        b = GC.gen_chain(r, coin, 2, max_txs=r.choice([0, 1, 3, 8]), max_io=r.choice([1, 3, 6]), extreme_values=True)[1]
         raw = b.enc() + (GC.rb(r, r.randrange(0, 5)) if r.random() < 0.3 else b"")
         reqs.append("%s %d %s" % (coin, r.randrange(1 << 32), raw.hex()))
         meta.append(("random", len(b.txs) >= 2 or any(t.segwit for t in b.txs)))
@@ -80,7 +80,7 @@ def correspondence(ctx):
     for i in range(ctx.n(40, 600)):
         coin = K.COINS[i % 8]
         n = r.randrange(2, 12 if not ctx.thorough() else 40)
-        blocks = GC.gen_chain(r, coin, n, max_txs=r.choice([1, 4, 12]), max_io=r.choice([2, 4, 8]))
+        blocks = GC.gen_chain(r, coin, n, max_txs=r.choice([1, 4, 12]), max_io=r.choice([2, 4, 8]), extreme_values=True)
         s = K.Scenario(coin=coin, callback="csvdump")
         GC.simple_layout(s, blocks, per_file=r.choice([None, 1, 3, 5]))
         if r.random() < 0.4:
